@@ -91,6 +91,49 @@ theorem under_nil (l : List (Route × Nat)) : under [] l = l := by simp [under]
 theorem under_cons (s : Seg) (r : Route) (l : List (Route × Nat)) : under [s] (under r l) = under (s :: r) l := by
   simp [under]
 
+-- merging a node into another (recursively, child into the child of the same pattern) keeps every route of both
+mutual
+theorem routes_mergeParts : ∀ (t a t' : BN), TreeOK t → TreeOK a → mergeParts t a = some t' →
+    t'.pat = t.pat ∧ (routesOfBN t').Perm (routesOfBN t ++ routesOfBN a) ∧ TreeOK t'
+  | .mk p f h ks, .mk p' f' h' ks', t', ht, ha, hm => by
+    simp only [mergeParts] at hm
+    split at hm
+    · cases hm
+    · rename_i hne
+      simp only [Option.map_eq_some_iff] at hm
+      obtain ⟨ks2, hk2, rfl⟩ := hm
+      obtain ⟨hp, hok⟩ := routes_mergeKids ks ks' ks2 ht ha hk2
+      refine ⟨rfl, ?_, hok⟩
+      simp only [routesOfBN]
+      cases h <;> cases h' <;> simp_all
+      · exact (List.Perm.cons _ hp).trans List.perm_middle.symm
+theorem routes_mergeKids : ∀ (ks cs ks' : List BN), KidsOK ks → KidsOK cs → mergeKids ks cs = some ks' →
+    (routesOfKidsBN ks').Perm (routesOfKidsBN ks ++ routesOfKidsBN cs) ∧ KidsOK ks'
+  | ks, [], ks', hk, _, hm => by
+    simp only [mergeKids, Option.some.injEq] at hm; subst hm; simp [routesOfKidsBN, hk]
+  | ks, c :: cs, ks', hk, hc, hm => by
+    obtain ⟨hcp, hct, hcs⟩ := hc
+    obtain ⟨s, hs⟩ := Option.isSome_iff_exists.mp hcp
+    simp only [mergeKids, hs] at hm
+    split at hm
+    · simp only [Option.bind_eq_some_iff] at hm
+      obtain ⟨ks2, h2, h3⟩ := hm
+      have hg : ∀ k k', TreeOK k → k.pat = some s → mergeParts k c = some k' →
+          k'.pat = some s ∧ (routesOfBN k').Perm (routesOfBN k ++ routesOfBN c) ∧ TreeOK k' := by
+        intro k k' hk' hp hm'
+        obtain ⟨h1, h2, h3⟩ := routes_mergeParts k c k' hk' hct hm'
+        exact ⟨h1.trans hp, h2, h3⟩
+      obtain ⟨hp2, hok2⟩ := routes_updKids (fun k => mergeParts k c) s _ hg ks ks2 hk h2
+      obtain ⟨hp3, hok3⟩ := routes_mergeKids ks2 cs ks' hok2 hcs h3
+      refine ⟨hp3.trans ?_, hok3⟩
+      simp only [routesOfKidsBN, hs, ← List.append_assoc]
+      refine List.Perm.append_right _ (hp2.trans ?_)
+      simp [under]
+    · obtain ⟨hp3, hok3⟩ := routes_mergeKids (ks ++ [c]) cs ks' (kidsOK_append ks [c] hk ⟨hcp, hct, trivial⟩) hcs hm
+      refine ⟨hp3.trans ?_, hok3⟩
+      simp [routesOfKids_append, routesOfKidsBN, hs, List.append_assoc]
+end
+
 /-- **Registration and mounting keep the route table.** Merging the tree `sub` of a mounted application (or the
     one-node tree of a single handler) at the route `r` yields a tree whose routes are the old ones plus the routes
     of `sub` prefixed by `r`; nothing is lost, nothing invented, and the tree stays well-formed. -/
@@ -100,19 +143,8 @@ theorem routes_mergeAt : ∀ (r : Route) (t sub t' : BN), TreeOK t → TreeOK su
   induction r with
   | nil =>
     intro t sub t' ht hs h
-    obtain ⟨p, f, hh, ks⟩ := t
-    obtain ⟨p', f', hh', ks'⟩ := sub
     simp only [mergeAt] at h
-    split at h
-    · cases h
-    split at h
-    · cases h
-    · rename_i hne
-      cases h
-      refine ⟨rfl, ?_, kidsOK_append ks ks' ht hs⟩
-      simp only [routesOfBN, routesOfKids_append, under_nil]
-      cases hh <;> cases hh' <;> simp_all
-      · exact List.perm_middle.symm
+    simpa [under_nil] using routes_mergeParts t sub t' ht hs h
   | cons s rest ih =>
     intro t sub t' ht hs h
     obtain ⟨p, f, hh, ks⟩ := t
